@@ -674,13 +674,31 @@ def big_get(eng, st, p):
         raise Unsupported("opaque *big.Int")
     v = eng.load(st, p)
     if v[0] is not False:
-        raise Unsupported("negative big.Int")
+        neg = v[0]
+        if neg is True or not eng.must(st, b_not(neg)):
+            raise Unsupported("possibly negative big.Int in an operation modelled for naturals only")
     a = v[1]
     if isinstance(a, BigNat):
         return a.v
     if isinstance(a, Slice) or a is None:
         return 0
     raise Unsupported("big.Int abs %r" % (a,))
+
+
+def big_get2(eng, st, p):
+    """(neg, magnitude) of a possibly negative big.Int"""
+    if p is None:
+        raise GoPanic("nil *big.Int dereference")
+    v = eng.load(st, p)
+    a = v[1]
+    mag = a.v if isinstance(a, BigNat) else 0
+    return v[0], mag
+
+
+def big_set2(eng, st, p, neg, mag):
+    if p is None:
+        raise GoPanic("nil *big.Int dereference")
+    eng.store(st, p, (neg, BigNat(mag)))
 
 
 def big_set(eng, st, p, v):
@@ -714,10 +732,17 @@ B = "(*math/big.Int)."
 @intr("math/big.NewInt")
 def big_newint(eng, st, fr, args, ins):
     x = args[0]
+    p = eng.alloc(st, "math/big.Int")
     if is_sym(x):
-        st.assume(x >= z3.BitVecVal(0, 64))
-        return big_new(eng, st, z3.ZeroExt(BIGBITS - 64, x))
-    return big_new(eng, st, x)
+        if isinstance(x, z3.ArithRef):
+            big_set2(eng, st, p, simp(x < 0), z3.If(x < 0, -x, x))
+        else:
+            neg = simp(x < z3.BitVecVal(0, 64))
+            mag = z3.ZeroExt(BIGBITS - 64, z3.If(x < z3.BitVecVal(0, 64), -x, x))
+            big_set2(eng, st, p, neg, mag)
+        return p
+    big_set2(eng, st, p, x < 0, abs(x))
+    return p
 
 
 @intr(B + "SetUint64")
@@ -782,7 +807,7 @@ def big_bytes_alts(eng, st, v, maxlen=BIGBITS // 8):
 
 @intr(B + "Bytes")
 def big_bytes(eng, st, fr, args, ins):
-    v = big_get(eng, st, args[0])
+    v = big_get2(eng, st, args[0])[1]  # Bytes() is the absolute value
     alts = big_bytes_alts(eng, st, v)
     if len(alts) == 1:
         if alts[0][0] is not None:
@@ -834,15 +859,29 @@ def _cmp_val(eng, a, b):
 
 @intr(B + "Cmp")
 def big_cmp(eng, st, fr, args, ins):
-    return _cmp_val(eng, big_get(eng, st, args[0]), big_get(eng, st, args[1]))
+    na, a = big_get2(eng, st, args[0])
+    nb, b = big_get2(eng, st, args[1])
+    if na is False and nb is False:
+        return _cmp_val(eng, a, b)
+    # sign-aware comparison (zero is never negative in math/big)
+    pos = _cmp_val(eng, a, b)
+    posb = pos if is_sym(pos) else z3.BitVecVal(pos, 64)
+    rev = _cmp_val(eng, b, a)
+    revb = rev if is_sym(rev) else z3.BitVecVal(rev, 64)
+    if isinstance(posb, z3.ArithRef) or isinstance(revb, z3.ArithRef):
+        raise Unsupported("signed big.Cmp in integer mode")
+    na_, nb_ = tobool(na), tobool(nb)
+    return z3.If(z3.And(na_, z3.Not(nb_)), z3.BitVecVal(-1, 64), z3.If(z3.And(z3.Not(na_), nb_), z3.BitVecVal(1, 64), z3.If(na_, revb, posb)))
 
 
 @intr(B + "Sign")
 def big_sign(eng, st, fr, args, ins):
-    v = big_get(eng, st, args[0])
-    if not is_sym(v):
-        return 1 if v > 0 else 0
-    return z3.If(v == z3.BitVecVal(0, BIGBITS), z3.BitVecVal(0, 64), z3.BitVecVal(1, 64))
+    neg, v = big_get2(eng, st, args[0])
+    if not is_sym(v) and not is_sym(neg):
+        return 0 if v == 0 else (-1 if neg else 1)
+    vb = tobv(v, BIGBITS) if not isinstance(v, z3.ArithRef) else v
+    zero = (vb == 0) if isinstance(v, z3.ArithRef) else (vb == z3.BitVecVal(0, BIGBITS))
+    return z3.If(zero, z3.BitVecVal(0, 64), z3.If(tobool(neg), z3.BitVecVal(-1, 64), z3.BitVecVal(1, 64)))
 
 
 @intr(B + "Uint64")
@@ -996,7 +1035,7 @@ def big_rsh(eng, st, fr, args, ins):
 
 @intr(C + "BigToHash")
 def big_to_hash(eng, st, fr, args, ins):
-    v = big_get(eng, st, args[0])
+    v = big_get2(eng, st, args[0])[1]  # BytesToHash(b.Bytes()): absolute value
     if not is_sym(v):
         return tuple((v & ((1 << 256) - 1)).to_bytes(32, "big"))
     return eng.unpack(v, 32)
@@ -1130,3 +1169,31 @@ def model_values(eng, st, model):
         else:
             out[name] = "0x%x" % v.as_long()
     return out
+
+
+@intr(B + "SetBit")
+def big_setbit(eng, st, fr, args, ins):
+    z, x, i, b = args
+    a = big_get(eng, st, x)
+    if is_sym(i) or is_sym(b):
+        raise Unsupported("SetBit with symbolic position")
+    if i >= BIGBITS:
+        raise Unsupported("SetBit beyond %d bits" % BIGBITS)
+    if not is_sym(a):
+        r = (a | (1 << i)) if b else (a & ~(1 << i))
+    else:
+        m = z3.BitVecVal(1 << i, BIGBITS)
+        r = (a | m) if b else (a & ~m)
+    big_set(eng, st, z, r)
+    return z
+
+
+@intr(B + "Bit")
+def big_bit(eng, st, fr, args, ins):
+    a = big_get(eng, st, args[0])
+    i = args[1]
+    if is_sym(i):
+        raise Unsupported("Bit with symbolic position")
+    if not is_sym(a):
+        return (a >> i) & 1
+    return z3.ZeroExt(63, z3.Extract(i, i, a))
